@@ -4,7 +4,12 @@ import (
 	"encoding/json"
 	"fmt"
 	"net/netip"
+	"reflect"
+	"regexp"
+	"runtime"
 	"strings"
+	"sync"
+	"sync/atomic"
 	"time"
 
 	"github.com/uhppoted/uhppote-core/types"
@@ -14,6 +19,36 @@ import (
 )
 
 func init() { registry["C14"] = c14 }
+
+var c14DateRe = regexp.MustCompile(`"\d{4}-\d{2}-\d{2}"`)
+var c14TimeRe = regexp.MustCompile(`"\d{2}:\d{2}"`)
+var c14TaskRe = regexp.MustCompile(`"task":"[^"]*"`)
+
+// c14Poison makes one value inside a JSON text invalid (an impossible date, a time beyond 24:00, an unknown task name);
+// nil if the text holds nothing of the kind.
+func c14Poison(r gen.R, js []byte) []byte {
+	type cand struct {
+		loc  []int
+		with string
+	}
+	cands := []cand{}
+	for _, l := range c14DateRe.FindAllIndex(js, -1) {
+		cands = append(cands, cand{l, `"2024-13-45"`})
+	}
+	for _, l := range c14TimeRe.FindAllIndex(js, -1) {
+		cands = append(cands, cand{l, `"25:61"`})
+	}
+	for _, l := range c14TaskRe.FindAllIndex(js, -1) {
+		cands = append(cands, cand{l, `"task":"no such task"`})
+	}
+	if len(cands) == 0 {
+		return nil
+	}
+	k := cands[r.Pick(len(cands))]
+	out := append([]byte{}, js[:k.loc[0]]...)
+	out = append(out, k.with...)
+	return append(out, js[k.loc[1]:]...)
+}
 
 func c14(c *Ctx) {
 	zone := time.Local.String()
@@ -27,6 +62,7 @@ func c14(c *Ctx) {
 		N = c.N(1200, 8000)
 	}
 	var caseNo int64
+	defer c14Concurrent(c, zone)
 
 	viol := func(key, what string, w map[string]any) {
 		if w == nil {
@@ -35,6 +71,7 @@ func c14(c *Ctx) {
 		w["zone"] = zone
 		c.Res.Violate(key, what+" (TZ="+zone+")", w, caseNo)
 	}
+	lastJSON := map[string][]byte{}
 	// roundtrip marshals v, unmarshals into fresh (a pointer to a zero value), and hands both to eq.
 	roundtrip := func(typ string, v any, fresh any, eq func() string) {
 		caseNo++
@@ -54,6 +91,19 @@ func c14(c *Ctx) {
 			return
 		}
 		c.Res.DistinctKey(typ, js)
+		// state left behind by an earlier, failed decode: every other case first decodes the previous value's JSON with one
+		// date / time / name made invalid (into a variable of its own) - the decode that follows must not inherit anything
+		if prev, ok := lastJSON[typ]; ok && caseNo%2 == 0 {
+			if bad := c14Poison(r, prev); bad != nil {
+				func() {
+					defer func() { recover() }()
+					if json.Unmarshal(bad, reflect.New(reflect.TypeOf(fresh).Elem()).Interface()) != nil {
+						c.Res.Count("failed-decodes-interleaved", 1)
+					}
+				}()
+			}
+		}
+		lastJSON[typ] = js
 		func() {
 			defer func() {
 				if p := recover(); p != nil {
@@ -279,6 +329,12 @@ func c14(c *Ctx) {
 			})
 
 			task := types.Task{Task: types.TaskType(r.Pick(13)), Door: r.U8(), From: mkDateV(), To: mkDateV(), Weekdays: mkWeekdays(), Start: mkHH(), Cards: r.U8()}
+			if r.Chance(0.3) {
+				task.Cards = 0 // omitted from the JSON form
+			}
+			if r.Chance(0.3) {
+				task.Door = 0
+			}
 			var tout types.Task
 			roundtrip("Task", task, &tout, func() string {
 				if tout.Task != task.Task || tout.Door != task.Door || !dateEq(tout.From, task.From) || !dateEq(tout.To, task.To) || !weekdaysEq(tout.Weekdays, task.Weekdays) || !tout.Start.Equals(task.Start) || tout.Cards != task.Cards {
@@ -559,4 +615,82 @@ func c14(c *Ctx) {
 		}
 	}
 	_ = gen.Locations
+}
+
+// c14Concurrent: several goroutines round-trip different values at the same time (each coming back to the same few dates,
+// as a list of cards does); every result is compared with the value that goroutine encoded.
+func c14Concurrent(c *Ctx, zone string) {
+	G := 8
+	per := c.N(800, 8000) * (1 + runtime.GOMAXPROCS(0)) / 2
+	var wg sync.WaitGroup
+	var nbad atomic.Int64
+	dateEq := func(a, b types.Date) bool {
+		if a.IsZero() || b.IsZero() {
+			return a.IsZero() == b.IsZero()
+		}
+		y1, m1, d1 := time.Time(a).Date()
+		y2, m2, d2 := time.Time(b).Date()
+		return y1 == y2 && m1 == m2 && d1 == d2
+	}
+	for g := 0; g < G; g++ {
+		wg.Add(1)
+		go func(g int) {
+			defer wg.Done()
+			rr := gen.New(c.Seed, fmt.Sprintf("C14/concurrent/%s/%d", zone, g), c.Batch)
+			mkDate := func() types.Date { d := rr.Date(); return types.ToDate(d.Y, time.Month(d.Mo), d.D) }
+			from, to := mkDate(), mkDate()
+			left := 0
+			bad := func(typ, js, msg string) {
+				nbad.Add(1)
+				c.Res.Violate("C14:"+typ+":concurrent", fmt.Sprintf("%s: JSON %s decodes to a different value while %d goroutines decode concurrently: %s (TZ=%s)", typ, js, G, msg, zone), map[string]any{"json": js, "zone": zone}, -4)
+			}
+			for k := 0; k < per && nbad.Load() < 4; k++ {
+				if left == 0 {
+					from, to, left = mkDate(), mkDate(), 20+rr.Pick(300)
+				}
+				left--
+				c.Res.Eval(1)
+				switch rr.Pick(5) {
+				case 0:
+					js, _ := json.Marshal(from)
+					var out types.Date
+					if err := json.Unmarshal(js, &out); err != nil || !dateEq(out, from) {
+						bad("Date", string(js), fmt.Sprintf("%v (err %v)", out, err))
+					}
+				case 1:
+					if p, err := types.ParseDate(to.String()); err != nil || !dateEq(p, to) {
+						bad("Date.text", to.String(), fmt.Sprintf("%v (err %v)", p, err))
+					}
+				case 2:
+					card := types.Card{CardNumber: rr.U32() | 1, From: from, To: to, Doors: map[uint8]uint8{1: rr.U8(), 2: rr.U8(), 3: rr.U8(), 4: rr.U8()}, PIN: types.PIN(rr.PIN())}
+					js, _ := json.Marshal(card)
+					var out types.Card
+					if err := json.Unmarshal(js, &out); err != nil || out.CardNumber != card.CardNumber || !dateEq(out.From, from) || !dateEq(out.To, to) || out.PIN != card.PIN || out.Doors[3] != card.Doors[3] {
+						bad("Card", string(js), fmt.Sprintf("%v (err %v)", out, err))
+					}
+				case 3:
+					h := rr.HHmm()
+					task := types.Task{Task: types.TaskType(rr.Pick(13)), Door: rr.U8(), From: from, To: to, Start: types.NewHHmm(h.H, h.Mi), Cards: rr.U8()}
+					js, _ := json.Marshal(task)
+					var out types.Task
+					if err := json.Unmarshal(js, &out); err != nil || out.Task != task.Task || out.Door != task.Door || !dateEq(out.From, from) || !dateEq(out.To, to) || !out.Start.Equals(task.Start) || out.Cards != task.Cards {
+						bad("Task", string(js), fmt.Sprintf("%v (err %v)", out, err))
+					}
+				default:
+					t := localDateTime(rr)
+					if y := t.Year(); y < 2 || y > 9999 {
+						continue
+					}
+					v := types.DateTime(t)
+					js, _ := json.Marshal(v)
+					var out types.DateTime
+					if err := json.Unmarshal(js, &out); err != nil || time.Time(out).Format("2006-01-02 15:04:05") != t.Format("2006-01-02 15:04:05") {
+						bad("DateTime", string(js), fmt.Sprintf("%v (err %v)", out, err))
+					}
+				}
+			}
+		}(g)
+	}
+	wg.Wait()
+	c.Res.Count("concurrent-roundtrips", int64(G*per))
 }
